@@ -398,8 +398,32 @@ def execute(src, table, globs, want_mro=False):
     return rec, fail, exc, missing, g
 
 
+GAVE_UP = [0]
+
+
+def watch_limits():
+    """jedi documents give-up limits for function executions (recursion.py: at most 6 executions of
+    one function and 2 nested executions of the same function per query, 200 executions in total,
+    depth 15).  The property quantifies over programs that do not hit them; the harness observes the
+    detector itself (wrapped in this process only) to know when a query was cut short."""
+    from jedi.inference import recursion
+    det = recursion.ExecutionRecursionDetector
+    if getattr(det.push_execution, '_jv_wrapped', False):
+        return
+    orig = det.push_execution
+
+    def push_execution(self, execution):
+        r = orig(self, execution)
+        if r:
+            GAVE_UP[0] += 1
+        return r
+    push_execution._jv_wrapped = True
+    det.push_execution = push_execution
+
+
 def ask(script, line, col):
     """Script.infer -> sorted [(name, type, line, module_path is None)] or an exception signature"""
+    GAVE_UP[0] = 0
     try:
         res = script.infer(line, col)
         return sorted((d.name, d.type, d.line, d.module_path is None) for d in res), None
@@ -590,10 +614,12 @@ class Gen:
             for _ in range(4):
                 base = self.expr(depth - 1, env, funs, classes, body_of)
                 if body_of is not None and base[0] == 'name':
+                    if env.get(base[1]) == {'dict'}:
+                        continue    # **kwargs[int]: KeyError at run time; jedi answers with all values (not modelled)
                     # a parameter: shape unknown inside the body; callers pass tuples sometimes
                     return ('index', base, rng.choice([0, 0, 1, -1, 2]))
                 sh = self.shapes(base, env, funs)
-                if not sh:
+                if not sh or 'dict' in sh:
                     continue
                 if any(x in ('str', 'bytes') for x in sh):
                     continue        # indexing str/bytes needs the (absent) stubs
@@ -678,7 +704,7 @@ class Gen:
         if r < 0.30 and self.nf < 6:
             f = self.nf + 1
             ps = self.params()
-            penv = {x: set() for x, _, _ in ps}
+            penv = {x: ({'dict'} if k == 'sstar' else set()) for x, k, _ in ps}
             body = self.expr(rng.choice([1, 2, 2, 3]), penv, dict(self.funs), list(self.classes), body_of=f)
             if not penv and rng.random() < 0.5:
                 body = ('tuple', [body, self.lit()])
@@ -832,12 +858,12 @@ def cond_inputs(prog, rng_seed):
             walk(st[3])
             [walk(d) for _, _, d in st[2] if d is not None]
     used = sorted(used)
-    if len(used) <= 3:
+    if len(used) <= 2:
         combos = list(itertools.product([False, True], repeat=len(used)))
     else:
         r = random.Random(rng_seed)
         combos = {tuple([False] * len(used)), tuple([True] * len(used))}
-        while len(combos) < 8:
+        while len(combos) < 4:
             combos.add(tuple(r.random() < 0.5 for _ in used))
         combos = sorted(combos)
     out = []
@@ -852,6 +878,7 @@ def cond_inputs(prog, rng_seed):
 def _core_task(item):
     kind, idx, prog = item
     import jedi
+    watch_limits()
     try:
         src, occs, cls_line = build(prog)
     except Exception as e:
@@ -886,7 +913,9 @@ def _core_task(item):
             continue
         col = 0 if isinstance(o.probe, tuple) else o.probe
         res, exc = ask(script, o.line, col)
-        answers[o.oid] = dict(res=res, exc=exc, col=col)
+        answers[o.oid] = dict(res=res, exc=exc, col=col, gave_up=GAVE_UP[0])
+        if GAVE_UP[0]:
+            script = jedi.Script(src)      # results cut short stay in the Script's caches: start clean
     return dict(kind=kind, src=src, prog=prog, cls_line=cls_line, runs=runs, answers=answers,
                 occs=[(o.oid, o.stmt, o.expr, o.line, o.c0, o.c1, o.kind, o.where, o.path) for o in occs])
 
@@ -1050,7 +1079,7 @@ def core_stream(ctx, items, stats):
             else:
                 ctx.violation('obligation', dict(what='check machinery: ' + str(r['skip'])[:300], source=r.get('src')), nofail=True)
             continue
-        if cur is None or len(cur['defs']) >= 20:
+        if cur is None or len(cur['defs']) >= 36:
             cur = dict(defs=[], ev=[], ff=[], inf=[])
             curm = dict(ev=[], ff=[], inf=[])
             groups.append(cur)
@@ -1071,6 +1100,9 @@ def core_stream(ctx, items, stats):
             if a['exc']:
                 ctx.deviation(dict(stream=kind, exc=a['exc']['exc'], site=a['exc']['site']),
                               dict(source=r['src'], line=o[3], column=a['col'], error=a['exc']), 'Script.infer raised')
+                continue
+            if a['gave_up']:
+                stats['probes_cut_short_by_giveup_limits'] += 1     # outside the property's quantifier
                 continue
             tags = sorted({tag_of_def(d, cls_line) for d in a['res']})
             jtags[oid] = tags
@@ -1193,7 +1225,7 @@ def mro_stream(ctx, hiers, stats):
             if 'exc' in r:
                 ctx.deviation(dict(stream='mro', exc=r['exc']['exc'], site=r['exc']['site']), dict(source=r.get('src'), error=r['exc']), 'Script() raised')
             continue
-        if cur is None or len(cur['defs']) >= 40:
+        if cur is None or len(cur['defs']) >= 60:
             cur = dict(defs=[], at=[], mr=[])
             curm = dict(at=[], mr=[])
             groups.append(cur)
@@ -1641,6 +1673,7 @@ class _Rec(ast.NodeTransformer):
 def _explore_task(item):
     idx, src, where = item
     import jedi
+    watch_limits()
     try:
         tree = ast.parse(src)
     except SyntaxError as e:
@@ -1668,7 +1701,9 @@ def _explore_task(item):
         return dict(skip='script', exc=common.exc_sig(e), src=src)
     for (ln, col), classes in sorted(seen.items()):
         res, exc = ask(script, ln, col)
-        out.append(dict(line=ln, col=col, name=rec.probes.get((ln, col)), runtime=sorted(classes, key=repr), res=res, exc=exc,
+        if GAVE_UP[0]:
+            script = jedi.Script(src)
+        out.append(dict(line=ln, col=col, name=rec.probes.get((ln, col)), runtime=sorted(classes, key=repr), res=res, exc=exc, gave_up=GAVE_UP[0],
                         scenario=where.get(ln) or where.get(str(ln))))
     return dict(src=src, probes=out, err=err)
 
@@ -1694,6 +1729,9 @@ def explore_stream(ctx, items, stats):
                 ctx.deviation(dict(stream='explore', scenario=sc, exc=pr['exc']['exc'], site=pr['exc']['site']),
                               dict(source=r['src'], line=pr['line'], column=pr['col'], error=pr['exc']), 'Script.infer raised')
                 continue
+            if pr.get('gave_up'):
+                stats['explore_probes_cut_short_by_giveup_limits'] += 1
+                continue
             stats['explore_probes'] += 1
             ctx.count('explore', (r['src'], pr['line'], pr['col']), nontrivial=True)
             got = {(d[0], d[2]) for d in pr['res'] if d[1] == 'instance'}
@@ -1714,7 +1752,10 @@ def explore_stream(ctx, items, stats):
 def run(ctx):
     import collections
     common.setup_jedi(os.path.join(ctx.tmp, 'cache'))
+    import time
+    t00 = time.time()
     ctx.proofs()
+    t_proofs = round(time.time() - t00, 1)
     ctx.cov['fingerprints'] = common.fingerprint(FP)
     ctx.cov['rule'] = (
         'core/bind: seeded random programs of the core language (<= 25 statements; bind: one signature x one call, parameters '
@@ -1730,29 +1771,40 @@ def run(ctx):
         'jedi\'s give-up limits (6 executions per function and query) are not modelled; generated programs stay below them',
         'exploration scenarios avoid what needs the absent typeshed stubs (builtin calls, None/True/False, str/bytes subscripts, *args forwarding wrappers)']
     stats = collections.Counter()
+    stats['t_proofs_s'] = t_proofs
     rng = ctx.rng
-    changed = False
     # core + bind
-    n_core, n_bind = ctx.n(220, 3000), ctx.n(140, 3000)
+    n_core, n_bind = ctx.n(150, 3000), ctx.n(100, 3000)
     items = []
     for i in range(n_core):
         items.append(('core', i, Gen(rng, rng.randint(6, 25)).run()))
     for i in range(n_bind):
         items.append(('bind', n_core + i, gen_bind_prog(rng)))
+    import time
+    t0 = time.time()
     core_stream(ctx, items, stats)
+    stats['t_core_stream_s'] = round(time.time() - t0, 1)
+    t0 = time.time()
     # mro
     allh = list(enum_hier4())
     rng.shuffle(allh)
-    hiers = allh[:ctx.n(160, 4000)]
-    for _ in range(ctx.n(120, 3000)):
+    hiers = allh[:ctx.n(110, 4000)]
+    for _ in range(ctx.n(70, 3000)):
         hiers.append(gen_hier(rng, rng.randint(3, 6)))
     mro_stream(ctx, hiers, stats)
+    stats['t_mro_stream_s'] = round(time.time() - t0, 1)
+    t0 = time.time()
     # explore
     ex = []
-    for i in range(ctx.n(140, 2500)):
+    for i in range(ctx.n(100, 2500)):
         src, where = gen_explore(rng, rng.randint(3, 6))
         ex.append((i, src, where))
     explore_stream(ctx, ex, stats)
+    stats['t_explore_stream_s'] = round(time.time() - t0, 1)
+    cut = stats['probes_cut_short_by_giveup_limits']
+    if cut > 0.05 * max(1, stats['probes'] + cut):
+        ctx.violation('obligation', dict(what='%d of %d core probes were cut short by jedi\'s execution give-up limits (expected: rare); '
+                                              'the limits trigger far more often than on the reference tree' % (cut, stats['probes'] + cut)), nofail=True)
     ctx.stat('counts', dict(stats))
     ctx.cov['streams_note'] = ('obligations = the theorems of Props/C02.v; core/bind/mro evaluations tie the Coq models to CPython and to Script.infer; '
                                'explore is model-free (jedi vs execution only) and contributes no obligations')
